@@ -123,8 +123,9 @@ def evalPart (D : Dataset) (g : Graph) (μ0 : Row n) : Alg → List (Row n)
       match evalExpr D g (c.forget μ0 vars) e with
       | none => some c
       | some t =>
+        -- `if var in c and c[var] != e: continue` / `yield c.merge({var: e})`
         match c.get v with
-        | some y => if y = t then some c else none
+        | some y => if y = t then some (c.set v t) else none
         | none => some (c.set v t)
   -- evalGraph
   | .graph gp p =>
